@@ -326,6 +326,13 @@ class SpecEval:
             return SV(ty.Bool, z3.Select(m.e, ops.coerce(k, m.t.key).e))
         return SV(ty.Opt(m.t.val), z3.Select(m.e, ops.coerce(k, m.t.key).e))
 
+    def f_store_opt(self, node, env):
+        """store_opt(m, k, v): the map m with key k bound to the Optional v (None = key removed)"""
+        m = self.eval(node.args[0], env)
+        k = ops.coerce(self.eval(node.args[1], env), m.t.key)
+        v = ops.coerce(self.eval(node.args[2], env), ty.Opt(m.t.val))
+        return SV(m.t, z3.Store(m.e, k.e, v.e))
+
     def f_raised(self, node, env):
         """raised(E): in an exceptional postcondition, the class of the exception in flight."""
         return SV(ty.Bool, z3.BoolVal(env.ex is not None and self.reg.exc_is_sub(env.ex.cls, node.args[0].id)))
